@@ -3,8 +3,8 @@
 package c20
 
 import (
-	"os"
 	"sync"
+	"time"
 
 	"cedarverif/internal/ccbreplay"
 	"cedarverif/internal/core"
@@ -19,6 +19,9 @@ type genCfg struct {
 	mode      string
 	nb        int
 }
+
+// generous: TLC shares the machine with other checks
+const tlcTimeout = 45 * time.Minute
 
 func run(c *core.Ctx) {
 	c.Assume("timing: the requester finishes processing what it has received within the settle delay (0.4 s; a difference is re-run with 4 s) and the 250 ms stagger timer does not fire while it is still busy with received data; observed scripts outside the generated set are judged by the invariants only")
@@ -39,12 +42,12 @@ func run(c *core.Ctx) {
 	}
 	// the TLC runs are independent of each other: run them side by side
 	var wg sync.WaitGroup
-	if c.Replay == "" && os.Getenv("VERIF_DEV_SKIPMC") == "" {
+	if c.Replay == "" {
 		for _, m := range mcs {
 			wg.Add(1)
 			go func(m string) {
 				defer wg.Done()
-				kit.ModelCheck(c, "CCBDial.tla", m, tlc.Options{Workers: 4})
+				kit.ModelCheck(c, "CCBDial.tla", m, tlc.Options{Workers: 4, Timeout: tlcTimeout})
 			}(m)
 		}
 	}
@@ -55,7 +58,7 @@ func run(c *core.Ctx) {
 		wg.Add(1)
 		go func(g genCfg) {
 			defer wg.Done()
-			raws := kit.Generate(c, "Gen_CCBDial.tla", g.cfg, tlc.Options{})
+			raws := kit.Generate(c, "Gen_CCBDial.tla", g.cfg, tlc.Options{Timeout: tlcTimeout})
 			if raws == nil {
 				return
 			}
